@@ -344,7 +344,7 @@ async fn run_async(ops: Vec<Vec<String>>, root: PathBuf, tp: Arc<ThreadPool>) ->
                     if fm.new_bytes + fm.deduped_bytes != fm.total_bytes || fm.new_chunks + fm.deduped_chunks != fm.total_chunks {
                         why.push(format!("[C14] file {} new+deduped!=total", f.name));
                     }
-                    if fm.defrag_prevented_dedup_bytes > fm.new_bytes && false {
+                    if fm.defrag_prevented_dedup_bytes > fm.new_bytes || fm.defrag_prevented_dedup_chunks > fm.new_chunks {
                         why.push(format!("[C14] file {} defrag-prevented exceeds new", f.name));
                     }
                 }
